@@ -38,3 +38,21 @@ package mhprimary
 //@   loop 0 invariant 0 <= $idx && $idx <= len(ir.sizes)
 //@   loop 0 invariant newPos == pos - S($idx) && newPos >= 0
 //@   loop 0 invariant fileNum == ir.firstFile + $idx
+
+// ---------------------------------------------------------------------------
+// C16: lock discipline ("guarded by").
+//@ type MultihashPrimary
+//@   guarded_by nextPool, outstandingWork, recPos, recFileNum : poolLk read poolLk.R
+//@   guarded_by curPool : flushLock & poolLk read flushLock | poolLk.R
+//@   guarded_by file, writer, fileNum, length : flushLock
+//@   guarded_by gc : gcMutex
+
+//@ func (cp *MultihashPrimary) flushBlock(key []byte, value []byte) (work types.Work, err error)  property C16
+//@   holds cp.flushLock
+//@   modifies cp.file, cp.fileNum, cp.length, heap("G:os.File.$open")
+
+//@ func (mp *MultihashPrimary) Close() (err error)  property C16
+//@   exclusive Close runs after all users of the primary have stopped (Store.Close contract, C17)
+
+//@ func (mp *MultihashPrimary) NewIndexRemapper() (r *IndexRemapper, err error)  property C16
+//@   exclusive only called from index.Open while the store is being opened, before any goroutine is started
